@@ -87,10 +87,12 @@ def _reset(job, force=False):
         # Build a 'feature' set that is ultimately going to contain commits
         # from the current feature branch + those from potentially earlier
         # (pre-rebase) versions of the feature branch
-        feature = set(src.get_commit_diff(dst))
+        # (merge commits included: a manual conflict resolution on the
+        # integration branch is a merge commit)
+        feature = set(src.get_commit_diff(dst, False))
 
         # Analyse commits from the integration branch
-        wcommits = reversed(list(branch.get_commit_diff(dst)))
+        wcommits = reversed(list(branch.get_commit_diff(dst, False)))
         for rev in wcommits:
             if rev in feature:
                 continue
